@@ -1089,6 +1089,10 @@ pub fn f_hostile(seed: u64) -> Plan {
         " projects/p/topics/long-enough-name".into(),
         "проекты/п/темы/очень-длинное-имя-ресурса".into(),
         "projects".repeat(2000),
+        // longer than what fits into response trailers when it is echoed back
+        "x".repeat(17_000),
+        "projects/p/topics/".to_string() + &"y".repeat(70_000) + "?",
+        "ü".repeat(4_000),
         "/".repeat(40),
         "projects-no-slash-but-long-enough-to-pass-len".into(),
     ];
